@@ -79,10 +79,10 @@ class Ref:
         return obj
 
     def relate(self, src, dst):
-        for ents in list(self.nodes.get(src.path, {}).values()):
-            for d in list(ents):
-                self._put(d.path, dst)
-                self._put(dst.path, d)
+        snapshot = [d for ents in self.nodes.get(src.path, {}).values() for d in ents]     # `get(path=src.path)` is a new list
+        for d in snapshot:
+            self._put(d.path, dst)
+            self._put(dst.path, d)
 
     def invalidate(self, loc, path):
         if path != "" and path not in self.nodes:
@@ -238,7 +238,7 @@ class C21(Property):
                 break
             if res == "KeyError":
                 continue
-            bad = None
+            diffs = []
             for q in sorted(universe):
                 for l in range(nloc):
                     real = sorted(o.path for o in dm.get_data_locations(q, deployment=f"d{l}", location_name="loc"))
@@ -246,31 +246,47 @@ class C21(Property):
                     lines.append(f"get {l} {pp(q)}")
                     expect.append(";".join(pp(x) for x in sorted(real, key=pp)) or "-")
                     meta.append((ops, i, f"get_data_locations({q!r}, d{l})"))
-                    if real != want and bad is None:
-                        bad = (q, l, real, want)
-            if bad is not None:
-                q, l, real, want = bad
-                # narrow classification: a path is still listed in the node's valid_paths although no valid object carries it
+                    if real != want:
+                        diffs.append((q, l, real, want))
+            if diffs:
+                has_rel = any(o[0] == "rel" for o in ops[: i + 1])
                 stale = []
 
-                def walk(node, where):
+                def walk(node, where, l):
                     vp = node.valid_paths.get(f"d{l}", {}).get("loc", set())
                     objs = node.locations.get(f"d{l}", {}).get("loc", [])
                     stale.extend((where, x) for x in vp if not any(o.path == x and o.data_type != DataType.INVALID for o in objs))
                     for tok, ch in node.children.items():
-                        walk(ch, where + [tok])
+                        walk(ch, where + [tok], l)
 
-                walk(dm.path_mapper._filesystem, [])
-                missing = [x for x in want if x not in real]
-                extra = [x for x in real if x not in want]
-                beneath = op[0] == "inv" and op[1] == l and (op[2] == "/" or q == op[2] or q.startswith(op[2].rstrip("/") + "/"))
-                key = ("registry:stale-valid-paths-hide-new-location" if missing and not extra and stale and any(
-                           o[0] == "rel" for o in ops[: i + 1])
-                       else "registry:invalidate-skips-subtree" if extra and not missing and beneath and any(
-                           o[0] == "rel" for o in ops[: i + 1])
-                       else "registry:differs-from-reference")
-                self._fail(ctx, key, f"after {ops[: i + 1]}: get_data_locations({q!r}, d{l}) = {real}, reference {want}; stale valid_paths {stale}",
-                         {"ops": ops[: i + 1], "nloc": nloc})
+                def beneath(q, p):
+                    return p == "/" or q == p or q.startswith(p.rstrip("/") + "/")
+
+                key, shown = None, diffs[0]
+                if op[0] == "inv":
+                    b_extra = [d for d in diffs if d[1] == op[1] and beneath(d[0], op[2]) and not [x for x in d[3] if x not in d[2]]]
+                    other_loc = [d for d in diffs if d[1] != op[1]]
+                    if other_loc:
+                        key, shown = "registry:invalidate-touches-other-location", other_loc[0]
+                    elif b_extra and has_rel:
+                        key, shown = "registry:invalidate-skips-subtree", b_extra[0]
+                    elif has_rel and not [d for d in diffs if beneath(d[0], op[2])]:
+                        # only paths outside the invalidated subtree differ, on the invalidated location, in a history with
+                        # relations: what happens to the *other* end of a relation is not fixed by the property (the code shares
+                        # one object per registration, the reference too, but they reach it from different nodes). Not judged.
+                        ctx.count("unspecified:relation-collateral")
+                        break
+                else:
+                    q, l, real, want = diffs[0]
+                    walk(dm.path_mapper._filesystem, [], l)
+                    missing = [x for x in want if x not in real]
+                    extra = [x for x in real if x not in want]
+                    if missing and not extra and stale and has_rel:
+                        key = "registry:stale-valid-paths-hide-new-location"
+                q, l, real, want = shown
+                self._fail(ctx, key or "registry:differs-from-reference",
+                           f"after {ops[: i + 1]}: get_data_locations({q!r}, d{l}) = {real}, reference {want}; stale valid_paths {stale[:4]}",
+                           {"ops": ops[: i + 1], "nloc": nloc})
                 break
         ctx.case({"ops": [list(o) for o in ops[:10]], "nloc": nloc}, ("h", nloc, repr(ops)) if nontriv else None, bucket)
 
